@@ -20,17 +20,18 @@ variable {α : Type} [Field α] [LinearOrder α] [IsStrictOrderedRing α]
 theorem fwStep_gamma_range (G : Mat α) (m : Nat) (hG : SymmSquare G m) (hpsd : PosSemidef G m)
     (a : Vec α) (ha : InSimplex a m) :
     0 ≤ (fwStep G a).2.1 ∧ (fwStep G a).2.1 ≤ 1 := by
-  sorry
+  rw [fwStep_snd]
+  exact fwG_range G a
 
 /-- every iterate stays in the simplex: MGDA returns a convex combination of the rows -/
 theorem fwStep_simplex (G : Mat α) (m : Nat) (hm : 0 < m) (hG : SymmSquare G m)
     (hpsd : PosSemidef G m) (a : Vec α) (ha : InSimplex a m) : InSimplex (fwStep G a).1 m := by
-  sorry
+  exact fwStep_inSimplex G m hm hG.1 a ha
 
 /-- every iteration decreases `|Jᵀα|² = αᵀGα` (exact line search on the segment towards `e_t`) -/
 theorem fwStep_monotone (G : Mat α) (m : Nat) (hm : 0 < m) (hG : SymmSquare G m)
     (hpsd : PosSemidef G m) (a : Vec α) (ha : InSimplex a m) : qf G (fwStep G a).1 ≤ qf G a := by
-  sorry
+  exact fwStep_mono G m hG hpsd a ha.1
 
 /-- MGDA's weights: a convex combination, never longer than the mean (the starting point), for every
     iteration budget and every `epsilon` -/
@@ -38,14 +39,14 @@ theorem mgda_simplex_and_shorter_than_mean (G : Mat α) (m : Nat) (hm : 0 < m) (
     (hpsd : PosSemidef G m) (epsilon : α) (K : Nat) :
     InSimplex (mgdaWeights G m (1 / (m : α)) epsilon K).1 m ∧
     qf G (mgdaWeights G m (1 / (m : α)) epsilon K).1 ≤ qf G (List.replicate m (1 / (m : α))) := by
-  sorry
+  exact mgda_simplex_mono G m hm hG hpsd epsilon K
 
 /-- two rows: after one iteration the result is the exact minimum-norm point of the segment, and
     further iterations keep it optimal -/
 theorem mgda_two_rows_exact (G : Mat α) (hG : SymmSquare G 2) (hpsd : PosSemidef G 2) (epsilon : α)
     (K : Nat) (hK : 1 ≤ K) (b : Vec α) (hb : InSimplex b 2) :
     qf G (mgdaWeights G 2 (1 / 2) epsilon K).1 ≤ qf G b := by
-  sorry
+  exact mgda_two_rows G hG hpsd epsilon K hK b hb
 
 /-! ### PCGrad -/
 
@@ -57,14 +58,14 @@ theorem pcgrad_refines (J : Mat α) (m n : Nat) (hJ : MatWF J m n) (perms : List
     (hp : ∀ p ∈ perms, ∀ j ∈ p, j < m) :
     combine n J (pcgradWeights (gram J) perms).1 =
       vsum n ((List.range m).map fun i => pcRow J i (perms.getD i [])) := by
-  sorry
+  exact pcgrad_refines' J m n hJ perms hp
 
 /-- when no two rows conflict, PCGrad is the plain sum of the rows -/
 theorem pcgrad_no_conflict_sum (J : Mat α) (m n : Nat) (hJ : MatWF J m n) (perms : List (List Nat))
     (hp : ∀ p ∈ perms, ∀ j ∈ p, j < m)
     (hnc : ∀ a b, a < m → b < m → 0 ≤ dot (J.getD a []) (J.getD b [])) :
     (pcgradWeights (gram J) perms).1 = List.replicate m 1 := by
-  sorry
+  exact pcgrad_noconflict J m n hJ perms hp hnc
 
 /-! ### GradDrop -/
 
@@ -84,7 +85,7 @@ theorem graddrop_coordinate [Inhabited α] (J : Mat α) (m n : Nat) (hJ : MatWF 
           else if P < U.getD c 0 then (if xi.1 < 0 then 1 else 0)
           else 0
         (leak.getD xi.2 0 + (1 - leak.getD xi.2 0) * keep) * xi.1).sum := by
-  sorry
+  exact graddrop_coord J leak U n c hc
 
 /-! ### CAGrad (closed form given the dual optimum `w`; the conic programme is a kernel) -/
 
@@ -95,7 +96,7 @@ theorem cagrad_closed_form (J : Mat α) (m n : Nat) (hm : 0 < m) (hJ : MatWF J m
     combine n J (cagradWeights m c g0n gwn normEps w) =
       if normEps ≤ gwn then vadd (meanRow n J) (smul (c * g0n / gwn) (combine n J w))
       else zeros n := by
-  sorry
+  exact cagrad_closed J m n hm hJ c g0n gwn normEps w hw
 
 /-- hence `|A(J) - g_0|² = c² |g_0|²` whenever `g0n`, `gwn` are the norms of `g_0`, `g_w` up to the common
     normalisation factor `s` -/
@@ -106,13 +107,13 @@ theorem cagrad_distance (J : Mat α) (m n : Nat) (hm : 0 < m) (hJ : MatWF J m n)
     (h1 : dot (combine n J w) (combine n J w) = s * s * (gwn * gwn)) :
     let d := vsub (combine n J (cagradWeights m c g0n gwn normEps w)) (meanRow n J)
     dot d d = c * c * dot (meanRow n J) (meanRow n J) := by
-  sorry
+  exact cagrad_dist J m n hm hJ c g0n gwn normEps s w hw hge hgw hs h0 h1
 
 /-! ### Random -/
 
 /-- softmax of anything is a strictly positive convex combination -/
 theorem softmax_positive_sum_one (e : α → α) (he : ∀ x, 0 < e x) (xs : Vec α) (hx : xs ≠ []) :
     (∀ w ∈ softmaxW e xs, 0 < w) ∧ (softmaxW e xs).sum = 1 ∧ (softmaxW e xs).length = xs.length := by
-  sorry
+  exact softmax_spec e he xs hx
 
 end Tjd.Props.C18
